@@ -92,6 +92,54 @@ package regexp2
 //@     invariant forall k int :: 0 <= k && k < j ==> byteOffsets[k] == k
 //@     decreases i - j
 
+// C08: ByteRange. The text a match refers to carries a lazily built rune -> byte offset table. OffsetsFor says what a
+// table means for the text it belongs to: for text that came from a string, entry k is the byte offset of rune k of
+// that string (RuneStart; an invalid byte is one rune); for rune input it is the recurrence of runeByteOffsets; nil
+// stands for the identity. TextWF is the cache invariant: once the table is marked ready it is that table. The two
+// constructors establish it, byteRange (the only writer of the two cache fields) preserves it, and ByteRange returns
+// exactly the byte span of the rune span it is asked for.
+//@ spec func OffsetsFor(t *matchText, o []int) bool = ite(t.hasStringInput,
+//@     (o == nil ==> forall k int :: 0 <= k && k <= RuneCount(t.input) ==> RuneStart(t.input, k) == k) &&
+//@     (o != nil ==> len(o) == RuneCount(t.input) + 1 && forall k int {o[k]} :: 0 <= k && k <= RuneCount(t.input) ==> o[k] == RuneStart(t.input, k)),
+//@     (o == nil ==> forall k int :: 0 <= k && k < len(t.runes) ==> RuneWidth(t.runes[k]) == 1) &&
+//@     (o != nil ==> len(o) == len(t.runes) + 1 && o[0] == 0 && forall k int :: 0 <= k && k < len(t.runes) ==> o[k+1] == o[k] + RuneWidth(t.runes[k])))
+//@ spec func TextWF(t *matchText) bool = t != nil && (t.byteOffsetsReady ==> OffsetsFor(t, t.byteOffsets))
+// number of runes the text addresses
+//@ spec func TextLen(t *matchText) int = ite(t.hasStringInput, RuneCount(t.input), len(t.runes))
+
+//@ func newMatchText(r []rune) (t *matchText)
+//@   props C08
+//@   ensures t != nil && fresh(t) && t.runes == r && !t.hasStringInput && !t.byteOffsetsReady && TextWF(t)
+
+//@ func newStringMatchText(input string, r []rune) (t *matchText)
+//@   props C08 C02
+//@   ensures t != nil && fresh(t) && t.runes == r && t.hasStringInput && t.input == input && !t.byteOffsetsReady && TextWF(t)
+
+//@ func (t *matchText) buildByteOffsets() (o []int)
+//@   props C08
+//@   requires t != nil
+//@   ensures OffsetsFor(t, o)
+
+//@ func (t *matchText) byteRange(runeIndex int, runeLength int) (bi int, bl int)
+//@   props C08 C10
+//@   requires TextWF(t) && 0 <= runeIndex && 0 <= runeLength && runeIndex + runeLength <= TextLen(t)
+//@   modifies t.byteOffsets, t.byteOffsetsReady
+//@   ensures[cache]  TextWF(t) && t.byteOffsetsReady
+//@   ensures[string] t.hasStringInput ==> bi == RuneStart(t.input, runeIndex) && bl == RuneStart(t.input, runeIndex + runeLength) - bi
+//@   ensures[runes]  !t.hasStringInput && t.byteOffsets == nil ==> bi == runeIndex && bl == runeLength
+//@   ensures[table]  !t.hasStringInput && t.byteOffsets != nil ==> bi == t.byteOffsets[runeIndex] && bl == t.byteOffsets[runeIndex + runeLength] - bi
+
+// A capture without text (the zero Capture) answers with its rune span.
+//@ func (c *Capture) ByteRange() (index int, length int)
+//@   props C08 C10
+//@   requires c != nil && (c.text != nil ==> TextWF(c.text) && 0 <= c.RuneIndex && 0 <= c.RuneLength && c.RuneIndex + c.RuneLength <= TextLen(c.text))
+//@   modifies objs(matchText)
+//@   ensures[none]   c.text == nil ==> index == c.RuneIndex && length == c.RuneLength
+//@   ensures[cache]  c.text != nil ==> TextWF(c.text)
+//@   ensures[string] c.text != nil && c.text.hasStringInput ==> index == RuneStart(c.text.input, c.RuneIndex) && length == RuneStart(c.text.input, c.RuneIndex + c.RuneLength) - index
+//@   ensures[runes]  c.text != nil && !c.text.hasStringInput && c.text.byteOffsets == nil ==> index == c.RuneIndex && length == c.RuneLength
+//@   ensures[table]  c.text != nil && !c.text.hasStringInput && c.text.byteOffsets != nil ==> index == c.text.byteOffsets[c.RuneIndex] && length == c.text.byteOffsets[c.RuneIndex + c.RuneLength] - index
+
 // ---------------------------------------------------------------------------------------------
 // C08: capture arrays of a Match (match.go)
 // ---------------------------------------------------------------------------------------------
@@ -646,6 +694,24 @@ package regexp2
 //@   ensures[zero] g != nil && SparseSlot(m, num) == 0 ==> g.RuneIndex == m.RuneIndex && g.RuneLength == m.RuneLength
 //@ spec func SparseSlot(m *Match, num int) int = ite(m.sparseCaps != nil && has(m.sparseCaps, num), m.sparseCaps[num], num)
 
+// C17: lookup by name is lookup by the number the name table gives (GroupNumberFromName), nothing else: an unknown
+// name has no group, and a known name resolves exactly as its number does.
+//@ func (m *Match) GroupByName(name string) (g *Group)
+//@   props C17
+//@   requires m != nil && MatchWF(m) && m.regex != nil && GroupsWF(m.regex)
+//@   requires m.otherGroups != nil ==> len(m.otherGroups) == len(m.matchcount) - 1 && off(m.otherGroups) == 0
+//@   requires forall g int :: 0 <= g && g < len(m.matchcount) ==> m.matches[g] != nil || m.matchcount[g] == 0
+//@   modifies m.otherGroups
+//@   ensures[unknown] m.regex.capnames != nil && !has(m.regex.capnames, name) ==> g == nil
+//@   ensures[named]   m.regex.capnames != nil && has(m.regex.capnames, name) && m.regex.capnames[name] >= 0 ==> ((g == nil) == (SparseSlot(m, m.regex.capnames[name]) < 0 || SparseSlot(m, m.regex.capnames[name]) >= len(m.matchcount)))
+//@   ensures[zero]    m.regex.capnames != nil && has(m.regex.capnames, name) && g != nil && SparseSlot(m, m.regex.capnames[name]) == 0 ==> g.RuneIndex == m.RuneIndex && g.RuneLength == m.RuneLength
+
+//@ func (m *Match) GroupCount() (n int)
+//@   props C17 C08
+//@   pure
+//@   requires m != nil
+//@   ensures n == len(m.matchcount)
+
 // C08: materialised groups. The embedded capture of a group is its last capture; Captures lists all of them in order.
 //@ func newGroup(name string, text *matchText, caps []int, capcount int) (g Group)
 //@   props C08
@@ -950,6 +1016,7 @@ package regexp2
 
 //@ func newStringPrefixFilter(code *syntax.Code) (f StringPrefixFilter)
 //@   props C02 C03
+//@   requires[stream] code != nil ==> syntax.StreamWF(code.Codes)
 //@   modifies *
 //@   ensures[no-G]  f != nil ==> code != nil && !syntax.UsesStart(code)
 //@   ensures[ltr]   f != nil ==> !code.RightToLeft && code.FindOptimizations != nil
